@@ -1,5 +1,6 @@
 """A small world of real-shaped ActorCells (Arc<ActorProperties> with modelled synchronisation objects) for the sequential
 checks of the supervision tree (C05) and of spawn failure (C08)."""
+import re
 import z3
 
 import mirdump
@@ -44,8 +45,19 @@ def new_interp(prog, loop_bound=8):
 class World:
     """N cells; cell i has pid 100+i"""
 
-    def __init__(self, prog, I, st, n, statuses=None):
+    def __init__(self, prog, I, st, n, statuses=None, remote=None):
+        """remote = {i: j}: cell i carries a *remote* id (node 7) whose pid equals cell j's pid - two different actors, as a supervisor that holds a local child
+        next to the proxy of a remote actor sees them (pids of different nodes come from different allocators)"""
         self.prog, self.I, self.st, self.n = prog, I, st, n
+        self.remote = dict(remote or {})
+        # the child set's key type is read from the source on every run (the fixture must be built in the representation the code uses)
+        import os
+        import mirdump
+        src = open(os.path.join(mirdump.REPO, 'ractor', 'src', 'actor', 'supervision.rs')).read()
+        mm = re.search(r'children\s*:\s*Mutex<\s*Option<\s*HashMap<\s*([A-Za-z0-9_:]+)\s*,', src)
+        self.key_by_pid = bool(mm) and mm.group(1).split('::')[-1] in ('u64', 'usize')
+        if mm is None:
+            raise Inconclusive('SupervisionTree.children is no longer a Mutex<Option<HashMap<K, ActorCell>>>')
         self.pd = prog.crate.struct('ActorProperties')
         self.td = prog.crate.struct('SupervisionTree')
         if not self.pd or not self.td:
@@ -82,7 +94,7 @@ class World:
             if 'monitors' in tf:
                 tf['monitors'] = self._mutex('monitors%d' % i, models_std.NONE)
             f = {k: Opaque('props%d.%s' % (i, k), ident='props%d.%s' % (i, k)) for k in self.pd['fields']}
-            f['id'] = Enum('ActorId', 'Local', 0, (I.mk_int(100 + i, 'u64'),))
+            f['id'] = self.id_of(i)
             f['name'] = models_std.NONE
             f['status'] = Obj('atomic', s_oid)
             f['signal'] = sig_mx
@@ -103,6 +115,17 @@ class World:
     def cell(self, i):
         return Agg('ActorCell', (BoxV(self.pcell[i], 'Arc'),))
 
+    def id_of(self, i):
+        if i in self.remote:
+            return Enum('ActorId', 'Remote', 1, (self.I.mk_int(7, 'u64'), self.I.mk_int(100 + self.remote[i], 'u64')))
+        return Enum('ActorId', 'Local', 0, (self.I.mk_int(100 + i, 'u64'),))
+
+    def key_of(self, i):
+        """the key under which cell i sits in a child set, in the representation the code under test uses"""
+        if self.key_by_pid:
+            return self.I.mk_int(100 + self.remote.get(i, i), 'u64')
+        return self.id_of(i)
+
     def set_shape(self, sup, closed=()):
         """sup[i] = supervisor index or None; closed = indices whose child set is closed (None)"""
         st = self.st
@@ -113,14 +136,18 @@ class World:
                     raise ValueError('closed set with children')
                 val = models_std.NONE
             else:
-                val = models_std.some(Agg('HashMap', [Agg('()', (Enum('ActorId', 'Local', 0, (self.I.mk_int(100 + j, 'u64'),)), self.cell(j))) for j in kids]))
+                val = models_std.some(Agg('HashMap', [Agg('()', (self.key_of(j), self.cell(j))) for j in kids]))
             st.cells[st.ghost[('mutex_inner', self.children_mx[i].oid)]] = val
             st.cells[st.ghost[('mutex_inner', self.supervisor_mx[i].oid)]] = models_std.NONE if sup[i] is None else models_std.some(self.cell(sup[i]))
 
     # ---------------------------------------------------------------- observers (on any later state of the same world)
     def pid_of(self, st, cellv):
-        props = self.I.read(st, cellv.fields[0].cell, ())
-        return props.fields[self.pd['fields'].index('id')].fields[0].concrete() - 100
+        """index of the cell a stored ActorCell value denotes (by identity of its properties record, not by pid: pids may collide across nodes)"""
+        c = cellv.fields[0].cell
+        if c in self.pcell:
+            return self.pcell.index(c)
+        props = self.I.read(st, c, ())
+        return props.fields[self.pd['fields'].index('id')].fields[-1].concrete() - 100
 
     def children(self, st, i):
         v = st.cells[st.ghost[('mutex_inner', self.children_mx[i].oid)]]
@@ -132,7 +159,8 @@ class World:
         v = st.cells[st.ghost[('mutex_inner', self.children_mx[i].oid)]]
         if v.variant == 'None':
             return True
-        return all(p.fields[0].fields[0].concrete() - 100 == self.pid_of(st, p.fields[1]) for p in v.fields[0].fields)
+        from exec import val_key
+        return all(val_key(p.fields[0]) == val_key(self.key_of(self.pid_of(st, p.fields[1]))) for p in v.fields[0].fields)
 
     def supervisor(self, st, i):
         v = st.cells[st.ghost[('mutex_inner', self.supervisor_mx[i].oid)]]
@@ -184,3 +212,8 @@ def forests(n):
             rec(i + 1, sup + [s])
     rec(0, [])
     return out
+
+
+def remote_ids_available(prog):
+    """remote actor ids exist only in cluster builds (the dump used here is built with the cluster feature when the crate has it)"""
+    return prog.find_fn('ActorProperties::new_remote::<TActor>') is not None or prog.find_fn('ActorCell::new_remote::<TActor>') is not None
